@@ -75,7 +75,9 @@ def search(seed, rounds):
         with tempfile.NamedTemporaryFile("w", suffix=".log", delete=False) as lf:
             logname = lf.name
         env = dict(os.environ)
-        p = subprocess.Popen([sys.executable, "-W", "ignore", "-c", CHILD, str(rfd), logname], pass_fds=[rfd], env=env,
+        # the tracker inherits the interpreter flags of its first client: warnings ignored, printed, or turned into errors
+        wflag = ("ignore", "error", "default")[r % 3]
+        p = subprocess.Popen([sys.executable, "-W", wflag, "-c", CHILD, str(rfd), logname], pass_fds=[rfd], env=env,
                              stdout=subprocess.DEVNULL, stderr=subprocess.DEVNULL)
         os.close(rfd)
         for ln in lines:
@@ -91,8 +93,8 @@ def search(seed, rounds):
         cases += 1
         cleaned, final = model(lines, types)
         if ["END", ""] not in got:
-            return dict(violation=True, cases=cases, what="tracker stopped with an exception before finishing the clean-up; log %r" % got,
-                        witness=[l.decode("latin1") for l in lines])
+            return dict(violation=True, cases=cases, what="tracker (python -W %s) stopped with an exception before finishing the clean-up; log %r" % (wflag, got),
+                        witness=dict(warnings=wflag, lines=[l.decode("latin1") for l in lines]))
         got = [g for g in got if g[0] != "END"]
         during, after = got[:len(cleaned)], got[len(cleaned):]
         if during != cleaned or sorted(after) != sorted(final) or [g[0] for g in after] != sorted([g[0] for g in after], key=lambda t: t == "folder"):
